@@ -163,6 +163,18 @@ class ExcV(V):
         return 'ExcV(%s)' % self.what
 
 
+class IterV(V):
+    """an iterator over known items: consumed by next() and by loops"""
+    __slots__ = ('items', 'pos')
+
+    def __init__(self, items):
+        self.items = list(items)
+        self.pos = 0
+
+    def __repr__(self):
+        return 'IterV(%d/%d)' % (self.pos, len(self.items))
+
+
 class PartialV(V):
     """functools.partial(func, *args, **kwargs)"""
     __slots__ = ('func', 'args', 'kwargs')
@@ -286,8 +298,16 @@ class Raised(Exception):
         self.lineno = lineno
 
 
-_PURE_STR_METHODS = {n_ for n_ in dir(str) if not n_.startswith('_')} - {'format', 'format_map', 'join', 'encode', 'maketrans', 'translate',
-                                                                          'replace', 'split', 'rsplit', 'splitlines', 'partition', 'rpartition'}
+_PURE_STR_METHODS = {n_ for n_ in dir(str) if not n_.startswith('_')} - {'format', 'format_map', 'join', 'encode', 'maketrans', 'translate'}
+
+
+def _wrap_py(obj):
+    """a plain Python result of a pure standard-library call on constants, as an interpreter value"""
+    if isinstance(obj, list):
+        return ListV([_wrap_py(x) for x in obj])
+    if isinstance(obj, tuple):
+        return TupleV([_wrap_py(x) for x in obj])
+    return Const(obj)
 
 
 def _matching_handler(handlers, exc):
@@ -804,6 +824,8 @@ class Interp:
                 return BoundV(obj, attr)
             if isinstance(obj, Const) and isinstance(obj.v, str) and attr in _PURE_STR_METHODS:
                 return BoundV(obj, attr)
+            if isinstance(obj, Const) and type(obj.v).__module__ == 're' and not attr.startswith('_'):
+                return BoundV(obj, attr)
             return BoundV(obj, attr) if attr in _METHODS else Sym('%s.%s' % (_prov(obj), attr))
         if isinstance(obj, ExcV):
             return Sym('%s.%s' % (_prov(obj), attr))
@@ -985,6 +1007,11 @@ class Interp:
         return (not v) if neg else v
 
     def _compare(self, op, l, r, n):
+        if op is ast.In and isinstance(l, Const) and isinstance(r, Const) and isinstance(r.v, (str, bytes, tuple)):
+            try:
+                return l.v in r.v
+            except TypeError as e:
+                raise Raised('TypeError: %s' % e, getattr(n, 'lineno', 0))
         if op is ast.In:
             if isinstance(r, DictV):
                 r = ListV([k for k, _ in r.items])
@@ -1151,7 +1178,7 @@ class Interp:
             return bool(v.v)
         if isinstance(v, (ListV, TupleV, SetV, DictV)):
             return len(v.items) > 0
-        if isinstance(v, (DocV, CtxV, FuncV, Prim, TypeV, AnnotV, BoundV, ObjV, PartialV, ExcV)):
+        if isinstance(v, (DocV, CtxV, FuncV, Prim, TypeV, AnnotV, BoundV, ObjV, PartialV, ExcV, IterV)):
             return True
         if isinstance(v, SymStr):
             if v.nonempty is True:
@@ -1166,6 +1193,10 @@ class Interp:
         raise Undecided('truth of %r' % (v,))
 
     def iterate(self, v, node=None):
+        if isinstance(v, IterV):
+            rest = v.items[v.pos:]
+            v.pos = len(v.items)
+            return rest
         if isinstance(v, (ListV, TupleV, SetV)):
             return list(v.items)
         if isinstance(v, DictV):
@@ -1286,6 +1317,13 @@ class Interp:
                 return obj
             if name == 'get':
                 return Sym('%s.get(%s)' % (obj.prov, _prov(args[0])))
+        if isinstance(obj, Const) and type(obj.v).__module__ == 're' and not kwargs and all(isinstance(a, Const) for a in args) \
+                and not name.startswith('_'):
+            try:
+                r = getattr(obj.v, name)(*[a.v for a in args])
+            except Exception as e:
+                raise Raised('%s: %s' % (type(e).__name__, e), getattr(node, 'lineno', 0))
+            return _wrap_py(r)
         if isinstance(obj, Const) and isinstance(obj.v, str) and name in _PURE_STR_METHODS and not kwargs \
                 and all(isinstance(a, Const) for a in args):
             try:
@@ -1495,6 +1533,15 @@ class Interp:
         if h is None and name in self.foreign_names:
             # an imported foreign callable / class without a model: opaque result
             return Sym('%s(%s)' % (name, ','.join(_prov(x) for x in args)))
+        if h is None and name.startswith('re.') and getattr(self, 'concrete_context', False) and not kwargs \
+                and all(isinstance(x, Const) for x in args):
+            import re as _re
+            fn_ = getattr(_re, name[3:], None)
+            if callable(fn_):
+                try:
+                    return _wrap_py(fn_(*[x.v for x in args]))
+                except Exception as e:
+                    raise Raised('%s: %s' % (type(e).__name__, e), getattr(node, 'lineno', 0))
         if h is None and name.startswith(('math.', 're.')):
             return Sym('%s(%s)' % (name, ','.join(_prov(x) for x in args)))
         if h is None:
@@ -1620,7 +1667,20 @@ class Interp:
         return ListV([Sym('sorted%d(%s)' % (i, tag)) for i in range(len(items))])
 
     def p_iter(self, a, k, n):
+        if getattr(self, 'concrete_context', False) and isinstance(a[0], (ListV, TupleV, SetV, DictV)):
+            return IterV(self.iterate(a[0], n))
         return a[0]
+
+    def p_next(self, a, k, n):
+        it_ = a[0]
+        if isinstance(it_, IterV):
+            if it_.pos < len(it_.items):
+                it_.pos += 1
+                return it_.items[it_.pos - 1]
+            if len(a) > 1:
+                return a[1]
+            raise Raised('StopIteration', getattr(n, 'lineno', 0))
+        raise Undecided('next() of %r (line %s)' % (it_, getattr(n, 'lineno', '?')))
 
     def p_chain(self, a, k, n):
         out = []
@@ -1675,6 +1735,8 @@ class Interp:
         return Sym('max(%s)' % ','.join(_prov(x) for x in a), 'int')
 
     def p_cycle(self, a, k, n):
+        if getattr(self, 'concrete_context', False) and isinstance(a[0], (ListV, TupleV)) and a[0].items:
+            return ListV(list(a[0].items) * 64)      # long enough for every small-scope zip
         return Sym('cycle(%s)' % _prov(a[0]))
 
     def p_getattr(self, a, k, n):
@@ -1689,6 +1751,14 @@ class Interp:
         return a[0]
 
     def p_filter(self, a, k, n):
+        if getattr(self, 'concrete_context', False):
+            fn = a[0]
+            keep = []
+            for x in self.iterate(a[1], n):
+                v = x if (isinstance(fn, Const) and fn.v is None) else self.call_function(fn, [x], {}, n)
+                if self.truth(v, n):
+                    keep.append(x)
+            return ListV(keep)
         return ListV([x for x in self.iterate(a[1], n)])
 
     def p_map(self, a, k, n):
